@@ -134,6 +134,9 @@ def _gen_script(rng, kind, faulty):
         s["eval"] = "ok"
     if kind == "stublocal":
         s["stdout"] = rng.choice(["", "hello\n", "line1\nline2\n"])
+    if kind != "stubpoll" and rng.random() < 0.1:
+        # prints more than a pipe holds (64 KiB) on STDERR before it exits: blocked in write() until the wrapper reads
+        s["big_output"] = True
     if kind != "stubpoll" and rng.random() < 0.25:
         s["ignores_term"] = True  # the program ignores SIGTERM; only SIGKILL ends it
     if kind not in ("stublocal", "stubpoll") and rng.random() < 0.2:
@@ -1003,7 +1006,8 @@ class Sim:
         allowed = ALLOWED.get(cls)
         legal = True if allowed is None else (rec.state in allowed)
         either = False
-        exited_unrefreshed = rec.state == RUNNING and rec.exit_at is not None and self.world.now >= rec.exit_at
+        exited_unrefreshed = rec.state == RUNNING and rec.exit_at is not None and self.world.now >= rec.exit_at \
+            and not rec.script.get("big_output")  # blocked on a full pipe until join() reads it: still RUNNING
         if exited_unrefreshed and cls in ("get_exit_code", "get_stdout", "get_stderr"):
             either = True
         if not legal and not either:
@@ -1209,7 +1213,7 @@ class Sim:
         st, val = call(fn)
         if st == "exc":
             self.fail("state:get_app_state-raised", kind=rec.kind, got=exc_name(val), state=rec.state)
-        if rec.state == RUNNING and rec.exit_at is not None and self.world.now >= rec.exit_at:
+        if rec.state == RUNNING and rec.exit_at is not None and self.world.now >= rec.exit_at and not rec.script.get("big_output"):
             rec.state = FINISHED
         if getattr(val, "name", str(val)) != rec.state:
             self.fail("state:wrong-state", kind=rec.kind, got=str(val), expected=rec.state)
@@ -2251,6 +2255,8 @@ def execute_real(spec, keep_log=0):
 def real_expressible(spec):
     if any("intr" in o for o in spec["ops"]):
         return False
+    if any(w["script"].get("big_output") for w in spec["cfg"]["wrappers"]):
+        return False  # the gate of the real fake executable waits for the child's exit, which needs a reader
     for w in spec["cfg"]["wrappers"]:
         if w["kind"] == "stubpoll" or w["script"].get("launch") in ("eagain", "interrupt") or w["script"].get("post_launch") == "interrupt":
             return False
